@@ -72,6 +72,7 @@ class StormLibWrapper:
         func = getattr(
             self._stormlib.stormlib_dll, StormLibOperation.S_FILE_CLOSE_ARCHIVE.value
         )
+        func.restype = ctypes.c_bool
         func.argtypes = [StormLibMpqHandle]
         result = func(stormlib_operation_result.handle)
         self._throw_if_operation_fails(
@@ -106,6 +107,9 @@ class StormLibWrapper:
         func = getattr(
             self._stormlib.stormlib_dll, StormLibOperation.S_FILE_EXTRACT_FILE.value
         )
+        # the C functions return a one-byte bool: without a declared result type ctypes
+        # reads a whole int whose upper bytes are arbitrary, and a failure is not seen
+        func.restype = ctypes.c_bool
         result: int = func(
             stormlib_operation_result.handle,
             path_to_file_in_archive.encode("ascii"),
@@ -153,6 +157,7 @@ class StormLibWrapper:
         func = getattr(
             self._stormlib.stormlib_dll, StormLibOperation.S_FILE_ADD_FILE_EX.value
         )
+        func.restype = ctypes.c_bool
         result: int = func(
             stormlib_operation_result.handle,
             self._encode_file_path_for_platform(infile),
@@ -179,6 +184,7 @@ class StormLibWrapper:
         func = getattr(
             self._stormlib.stormlib_dll, StormLibOperation.S_FILE_COMPACT_ARCHIVE.value
         )
+        func.restype = ctypes.c_bool
         result: int = func(stormlib_operation_result.handle, None, 0)
         self._throw_if_operation_fails(
             StormLibOperation.S_FILE_COMPACT_ARCHIVE.value, result
